@@ -5,7 +5,7 @@ ROOT = os.path.dirname(os.path.dirname(os.path.abspath(__file__)))
 BASE = "cd /repo && /venv/bin/python -m pytest -ra -q -p no:cacheprovider --timeout=900 --continue-on-collection-errors"
 
 CHECKS = {
- 'C17': dict(text="Kernel-checked theorems (Coq 8.16.1) that the masks-and-shifts MODEL of compact_from_uint256 / uint256_from_compact / CheckProofOfWork equals the consensus arithmetic SPEC for every integer, compact value, hash and work limit below 2^256; the MODEL is tied to /repo by a py2coq translation of the two codec functions proved convertible to it (Tie/C17.v) and by a differential correspondence run IMPL vs extracted MODEL and SPEC oracle.",
+ 'C17': dict(text="Kernel-checked theorems (Coq 8.16.1) that the masks-and-shifts MODEL of compact_from_uint256 / uint256_from_compact / CheckProofOfWork equals the consensus arithmetic SPEC for every integer, compact value, hash and work limit below 2^256, and that the four chains' limits regenerated from /repo are the consensus ones (C17_chain_limits_consensus; the SPEC side of the run judges with the consensus limits, which is how F19 - signet inheriting mainnet's limit - was found and fixed); the MODEL is tied to /repo by a py2coq translation of the two codec functions proved convertible to it (Tie/C17.v) and by a differential correspondence run IMPL vs extracted MODEL and SPEC oracle.",
              note="Trusted: Coq kernel + vm_compute, tools/extract.py + py2coq.py, stdlib extraction directives, OCaml driver, IMPL harness; CPython int/struct semantics modelled. All theorems closed under the global context.",
              design="5/C17", technique="Coq proof (lia/nia over Z bit-operation bridge lemmas) + translated-definition tie + differential correspondence"),
 }
